@@ -187,7 +187,21 @@ def shards(tier):
     out += [{'formulas': [F.to_json(f) for f in ls[i:i + 2]], 'long': True} for i in range(0, len(ls), 2)]
     bs = big_set()
     out += [{'formulas': [F.to_json(f) for f in bs[i:i + 4]], 'big': True} for i in range(0, len(bs), 4)]
+    its = int_set()
+    out += [{'formulas': [F.to_json(f) for f in its[i:i + 6]], 'ints': True} for i in range(0, len(its), 6)]
     return out
+
+
+INT_VALUES = ((-1, 0, 2), (-1, 2))
+
+
+def int_set():
+    """one-operator formulas and arithmetic atoms monitored on Python int samples"""
+    U = F.unary_ops(F.I_QUICK, ops=PAST_U)
+    B = F.binary_ops(F.I_QUICK, ops=PAST_B, unless=False)
+    fs = list(F.F(1, U, B, [(F.PX, F.PY, F.X)]))
+    fs += [('pred', '>=', t, F.C0) for t in F.arith_terms(1) if t[0] not in ('sqrt', 'ln', 'log', 'exp')]
+    return fs
 
 
 BIG = 1e9
@@ -298,6 +312,8 @@ def run_shard(shard, tier, res):
             res.sample({'spec': 'out = ' + F.pr(f), 'long_traces': len(F.long_traces(len(F.fvars(f)) or 1, LONG_N, F.V3 if len(F.fvars(f)) < 2 else F.V2)), 'length': LONG_N}, 1)
             continue
         model = extra = None
+        if shard.get('ints'):
+            p = dict(values=INT_VALUES, maxdepth=5, max_transitions=300 if tier == 'quick' else 3000, validate='first')
         if shard.get('big'):
             model = DtOnlineModel(f, BIG_VALUES)
             model.exact = True
